@@ -12,7 +12,14 @@ import (
 // Rng is splitmix64.
 type Rng struct{ s uint64 }
 
-func NewRng(seed uint64) *Rng { return &Rng{s: seed*0x9E3779B97F4A7C15 + 0x1234567} }
+// NewRng: the seed goes through the splitmix64 finaliser before it becomes the state, so that different seeds give
+// unrelated streams (state = seed*gamma + c made the stream of seed k the stream of seed 0 shifted by k draws).
+func NewRng(seed uint64) *Rng {
+	z := seed*0x9E3779B97F4A7C15 + 0x1234567
+	z = (z ^ (z >> 30)) * 0xBF58476D1CE4E5B9
+	z = (z ^ (z >> 27)) * 0x94D049BB133111EB
+	return &Rng{s: z ^ (z >> 31)}
+}
 
 func (r *Rng) U64() uint64 {
 	r.s += 0x9E3779B97F4A7C15
